@@ -370,6 +370,7 @@ func byteViews(r *core.Run) {
 			idx++
 			if r.Mine(idx) {
 				for _, scratch := range []int{1, 2, 3, 0} {
+					r.StepBegin("copy:"+kind, fmt.Sprintf("copy helpers %s %d bits scratch %d", kind, nb, scratch), Case{Kind: "copybits", Args: map[string]any{"bits": nb, "src": kind, "scratch": scratch}})
 					var out bytes.Buffer
 					var n int64
 					var err error
@@ -408,6 +409,7 @@ func byteViews(r *core.Run) {
 							fmt.Sprintf("bitio.CopyBuffer(Buffer <- %s %d bits, scratch %d) gave %x/%d n=%d err=%v panic=%v", kind, nb, scratch, got1, gb, n1, e1, pv),
 							Case{Kind: "bitiocopy", Args: map[string]any{"bits": nb, "src": kind, "scratch": scratch}})
 					}
+					r.StepEnd()
 					if pv != nil || e2 != nil || e3 != nil || n2 != nb || !bytes.Equal(wout.Bytes(), view) {
 						r.Violate(fmt.Sprintf("bitio-copy-writer:%s:scratch%d", kind, scratch),
 							fmt.Sprintf("bitio.CopyBuffer(IOBitWriter <- %s %d bits, scratch %d) wrote %x n=%d err=%v/%v panic=%v expected %x", kind, nb, scratch, wout.Bytes(), n2, e2, e3, pv, view),
